@@ -141,8 +141,10 @@ def stage_w_versions(rep, rng, n, fixed):
 
 
 # ----------------------------------------------------------------------------- oracle: simplify on the implementation
-def classify_simplify(text):
-    """Finding classes of a failing specifier set (predicates on the input only)."""
+def classify_simplify(text, rejected=None):
+    """Finding classes of a failing specifier set: predicates on the input and on the failure (`rejected`: simplify_specifiers
+    raised ValueError - the open finding simplify-eq-string-identity describes a REJECTION of a satisfiable set, not a wrong
+    simplified set)."""
     from bfg9000.versioning import Version, SpecifierSet
     ss = list(SpecifierSet(text))
     cls = set()
@@ -159,7 +161,7 @@ def classify_simplify(text):
         if any(Version(v) == Version(w) for w in ne):
             cls.add('simplify-eq-drops-ne')
     eqs = [i.version for i in ss if i.operator == '==']
-    if any(a != b and Version(a) == Version(b) for a in eqs for b in eqs):
+    if any(a != b and Version(a) == Version(b) for a in eqs for b in eqs) and rejected is not False:
         cls.add('simplify-eq-string-identity')
     return tuple(sorted(cls))
 
@@ -169,10 +171,11 @@ def oracle_simplify_one(rep, text):
     versions; a rejected set has no member."""
     from bfg9000.versioning import simplify_specifiers, SpecifierSet
     ss = SpecifierSet(text)
+    errtext = None
     try:
         r = simplify_specifiers(ss)
-    except ValueError:
-        r = None
+    except ValueError as e:
+        r, errtext = None, str(e)
     bad = None
     for x in PROBES:
         want = x in ss
@@ -187,7 +190,7 @@ def oracle_simplify_one(rep, text):
     if bad:
         rep.fail(bad, {'kind': 'simplify', 'specifiers': text,
                        'replay_hint': "python -c \"from bfg9000.versioning import *; print(simplify_specifiers(SpecifierSet(%r)))\"" % text},
-                 classes=classify_simplify(text))
+                 classes=classify_simplify(text, rejected=(r is None and (errtext or '').startswith('inconsistent specifier set'))))
         return 1
     return 0
 
@@ -518,7 +521,12 @@ def denote(fl, vars_):
     return out
 
 
-def classify_flags(fl):
+def classify_flags(fl, real=None, predicted=None):
+    """Finding classes of a flag list that pkg-config does not read back as declared: a '#' / a '${' in the text of a flag
+    (predicate on the input) AND the list pkg-config read (`real`) is the one the two findings predict (`predicted`: the
+    reference reader Misc/PcFile.v - validated against pkgconf in the same stage, comments and variable substitution inside
+    quotes included - applied to the text the reference WRITER produces for these flags). Anything else read from a list of
+    this shape is a different violation."""
     cls = set()
     for f in fl:
         for fr in flag_frags(f):
@@ -526,7 +534,24 @@ def classify_flags(fl):
                 cls.add('pc-option-hash')
             if '${' in fr[-1]:
                 cls.add('pc-option-dollar-brace')
+    if real != predicted:
+        return ()
     return tuple(sorted(cls))
+
+
+def predicted_reads(lists, vars_):
+    """for each flag list: what pkg-config reads from the Cflags field the reference writer produces (both by the model)"""
+    if not lists:
+        return []
+    uw, _ = gen.uni_tables()
+    texts = [d_str(r) for r in common.model_batch([('pc.write_field', [uw, True, ' ', 'Cflags', [flag_frags(f) for f in fl]])
+                                                   for fl in lists])]
+    raw = common.model_batch([('pc.field', [vars_, t[len('Cflags: '):-1]]) for t in texts])
+    out = []
+    for r in raw:
+        mv = d_opt(lambda x: d_list(d_str, x), r)
+        out.append(canon_args(mv if mv is not None else []))
+    return out
 
 
 def flags_in_domain(fl):
@@ -571,6 +596,7 @@ def stage_pkgconf(rep, rng, n, seen_disagreement=False):
                 f.write(PC_HEADER + field)
         calls = [('pc.field', [vars_, t[len('Cflags: '):-1]]) for t in texts]
         raw = common.model_batch(calls)
+        failing = []
         for k, (fl, t, r) in enumerate(zip(lists, texts, raw)):
             rc, out, err = pkgconf(pcdir, 'p%d' % k, '--cflags')
             real = parse_pkgconf_output(out) if rc == 0 else None
@@ -588,10 +614,12 @@ def stage_pkgconf(rep, rng, n, seen_disagreement=False):
                 rep.fail('R:pc_field - the reader model and pkgconf disagree on %r: model %r, pkgconf %r %s' % (t, mv, real, err[:200]),
                          {'obligation': 'R:pc_field', 'field': t, 'model': mv, 'pkgconf': real}, found_input=False)
             if real != want:
-                bad_o += 1
-                rep.fail('pkg_config flags %r are written as %r and read by pkg-config as %r' % (want, t, real),
-                         {'kind': 'flags', 'frags': [flag_frags(f) for f in fl], 'written': t, 'read': real, 'declared': want},
-                         classes=classify_flags(fl))
+                failing.append((fl, t, real, want))
+        for (fl, t, real, want), pred in zip(failing, predicted_reads([x[0] for x in failing], vars_)):
+            bad_o += 1
+            rep.fail('pkg_config flags %r are written as %r and read by pkg-config as %r' % (want, t, real),
+                     {'kind': 'flags', 'frags': [flag_frags(f) for f in fl], 'written': t, 'read': real, 'declared': want},
+                     classes=classify_flags(fl, real, pred))
         rep.traces += len(lists)
         rep.stage('R:pkgconf+oracle:flags', files=len(lists), reader_model_disagreements=bad_r, flag_failures=bad_o)
     finally:
